@@ -232,7 +232,17 @@ def replay(ctx, hists, tag, jobs=6, corrupt="", timeout=3000, peers=NP):
     inp = os.path.join(ctx.work, f"{tag}.in.ndjson")
     outp = os.path.join(ctx.work, f"{tag}.out.ndjson")
     write_ndjson(inp, [{"id": i, "steps": h} for i, h in enumerate(hists)])
-    qev(["node-replay", inp, outp, os.path.join(ctx.work, "nodes"), str(jobs), corrupt, str(peers)], timeout=timeout)
+    args = ["node-replay", inp, outp, os.path.join(ctx.work, "nodes"), str(jobs), corrupt, str(peers)]
+    p = qev(args, timeout=timeout, check=False)
+    if p.returncode != 0:
+        # a crash of the harness process itself (seen once on the loaded shared box, not reproducible in 30 re-runs):
+        # a tool problem, never a verdict; one more attempt with fewer concurrent histories, then exit 2
+        log(f"[{ctx.pid}] qev node-replay exited {p.returncode}; stderr tail:\n{p.stderr[-3000:]}")
+        ctx.add("harness_process_retries")
+        import time
+        time.sleep(3)
+        args[4] = str(max(1, jobs // 2))
+        qev(args, timeout=timeout)
     outs = read_ndjson(outp)
     return outs[:-1], outs[-1]["summary"]
 
